@@ -24,7 +24,8 @@ TRUSTED = [
 ASSUMPTIONS = ["agreement model/implementation and the disk property are established on the cases explored in this run only"]
 RULE = ("connected oriented triangulated surfaces (sphere, tetrahedron, tori, genus 2, grids, Delaunay disks, annuli; holes punched → "
         "0-3+ border loops; regular variants with many equal edge lengths) × singularity sets (empty, one, few, many, border-only, "
-        "mixed) × features (none, real FeatureEdgeDetector, detector with an imposed interior feature set); non-trivial = in-domain "
+        "mixed) × features (none, real FeatureEdgeDetector, detector with an imposed interior feature set); plus regular grids with one "
+        "removed triangle and every singular pair next to the hole (thorough: all 2512, quick: 150 sampled); non-trivial = in-domain "
         "case whose run succeeded and cut at least one interior edge")
 
 
@@ -400,6 +401,9 @@ def cases(rng, tier):
             yield {"V": s["V"], "F": s["F"], "sing": sing, "feat": None, "tag": s["tag"], "sk": sk}
             if feat:
                 yield {"V": s["V"], "F": s["F"], "sing": sing, "feat": feat, "tag": s["tag"], "sk": sk}
+    # structured family: singular pairs next to a hole of a regular grid (crossing shortest paths of equal length)
+    for c in CG.pairs_at_hole(rng, 150 if tier == "quick" else 10 ** 6):
+        yield c
     # outside the statement (polygon faces): model fidelity on the error / index-vs-element paths, no oracle
     for _ in range(6 if tier == "quick" else 40):
         s = G.random_surface(rng, 20, tri_only=False, connected=True)
